@@ -501,7 +501,15 @@ fn get_fields(
                         ParamValue::Boolean(b) => b.to_string(),
                         ParamValue::Integer(i) => i.to_string(),
                         ParamValue::Float(f) => sql_float(f),
-                        ParamValue::String(s) => prepared_query.add_param(String::from(s), true),
+                        ParamValue::String(s) => {
+                            let param = prepared_query.add_param(String::from(s), true);
+                            //the default of a Json field is a JSON text: json() makes json_object embed the value, not a string
+                            if field.field.field_type == FieldType::Json {
+                                format!("json({})", param)
+                            } else {
+                                param
+                            }
+                        }
                         ParamValue::Binary(s) => prepared_query.add_param(String::from(s), true),
                         ParamValue::Null => unreachable!(),
                     };
